@@ -209,8 +209,8 @@ PROPS["C07"] = {
     "coq": ["Properties/C07.v", "Corr/Convcorr.v"],
     "trusted": CONV_TRUSTED + ["arbitrary BYTES first meet yaml.v2, go/parser and gqlparser's lexer/parser/validator (third party): the theorems start at the validated AST; the byte-level stream is exploration (recover + watchdog), reported as such"],
     "assumptions": ["the converter theorem assumes that names resolve (Gen/Wf.v: every named type, fragment and root type exists) and that every node's line number lies inside its source as parsePrecedingComment splits it (pos_okb): gqlparser's validator guarantees the first, the agreement of the lexer's line count with the split of the source (after fix fcb7a4e: \\n, \\r\\n and bare \\r) the second, and Corr/Convcorr.v evaluates the same booleans on every explored program (which include all three line terminators); the flatten index sites and OutOfFuel are not excluded by a theorem but exercised through the correspondence (the model must predict Ok/Err/Panic of every explored program)"],
-    "level_text": "Theorems: usedFragments terminates for every fragment table (no acyclicity assumed); the whole comment-directive path (scan, add, for:, conflicts) returns a value or an error for every line sequence; the formerly crashing inline fragment without type condition is converted; for the WHOLE converter model (convert.go with the directive validation it calls, every configuration and source text): on programs whose names resolve and whose positions lie inside their sources, no unchecked map or pointer dereference and no out-of-range index is reachable -- only the flatten index sites remain (full theorem: none at all on programs of the validated shape); without the positions hypothesis the sourceLines index of parsePrecedingComment panics (refutation theorem; the real generator did so on bare-CR files until fix fcb7a4e). The converter model marks every unchecked map dereference of convert.go as an explicit Panic and every non-structural recursion with fuel, and must predict the real outcome (accepted / error class / panic) of every explored program in-kernel. Exploration: valid-but-unusual programs, genqlient.yaml variants through ReadAndValidateConfig, and byte-level mutations of all four input kinds, each under recover and a watchdog.",
-    "level_note": "partial: proof for the directive path and fragment closure; converter no-panic carried by the correspondence on the model's explicit Panic sites; raw bytes are exploration only.",
+    "level_text": "Theorems: usedFragments terminates for every fragment table (no acyclicity assumed); the whole comment-directive path (scan, add, for:, conflicts) returns a value or an error for every line sequence; the formerly crashing inline fragment without type condition is converted; for the WHOLE converter model (convert.go with the directive validation it calls, every configuration and source text): on programs whose names resolve and whose positions lie inside their sources, no unchecked map or pointer dereference and no out-of-range index is reachable -- only the flatten index sites remain (full theorem: none at all on programs of the validated shape); it never loops: fuel is only a depth bound (result independent of fuel once produced), and with acyclic fragment spreads the whole generation has one result for every large enough fuel, recursive input types included (a self-spreading fragment is proved to diverge); without the positions hypothesis the sourceLines index of parsePrecedingComment panics (refutation theorem; the real generator did so on bare-CR files until fix fcb7a4e). The converter model marks every unchecked map dereference of convert.go as an explicit Panic and every non-structural recursion with fuel, and must predict the real outcome (accepted / error class / panic) of every explored program in-kernel. Exploration: valid-but-unusual programs, genqlient.yaml variants through ReadAndValidateConfig, and byte-level mutations of all four input kinds, each under recover and a watchdog.",
+    "level_note": "the converter (convert.go, genqlient_directive.go, validation.go as modelled) never panics and never loops on programs of the validated shape: theorems; raw bytes through yaml.v2 / go/parser / gqlparser and the parts of the generator outside the converter model (config loading, rendering, gofmt) are exploration only (recover + watchdog).",
     "theorem_status": {"C07_used_fragments_terminates": "proved", "C07_directive_add_total": "proved", "C07_directive_scan_total": "proved",
                        "C07_bare_inline_fragment_converts": "proved (fixed finding)",
                        "C07_converter_panics_only_at_flatten_index_sites_partial": "proved (partial: with names resolved and every node's line inside its source no unchecked dereference or index of the converter is reachable; the flatten index sites remain)",
@@ -219,7 +219,14 @@ PROPS["C07"] = {
                        "C07_strong_hypotheses_imply_partial_hypotheses": "proved",
                        "C07_converter_hypotheses_satisfiable": "proved (non-vacuity)",
                        "C07_converter_never_panics": "proved (full: no Panic site of the converter model is reachable on programs of the validated shape, for every configuration, source text and fuel)",
-                       "C07_converter_full_hypotheses_satisfiable": "proved (non-vacuity)"},
+                       "C07_converter_full_hypotheses_satisfiable": "proved (non-vacuity)",
+                       "C07_generation_result_independent_of_fuel": "proved (no hypothesis: once any result is produced, more fuel gives the same)",
+                       "C07_generation_terminates": "proved (never loops: acyclic fragment spreads + object implementations => one result for every large enough fuel; recursive input types included)",
+                       "C07_recursive_input_types_terminate": "proved",
+                       "C07_termination_checks_are_sound": "proved",
+                       "C07_termination_witness": "proved (non-vacuity)",
+                       "C07_self_spreading_fragment_diverges": "proved (the hypothesis is needed)",
+                       "C07_fixed_fuel_is_a_depth_cap": "proved (a limit of the model, not of the generator: FUEL = 400 caps the nesting at about 130 levels)"},
 }
 
 PROPS["C01"] = {
@@ -275,11 +282,18 @@ PROPS["C02"] = {
 PROPS["C06"] = {
     "coq": ["Properties/C06.v", "Corr/Rtcorr.v"],
     "trusted": RT_TRUSTED + ["encoding/json.Marshal on the __premarshal structs is modelled in Rt/JsonEncode.v (omitempty, nil pointer/slice/interface, the shallower TypeName field hiding an implementation's own `__typename`) and compared with the real output on every decoded value of every run; user marshalers are the harness's stubs"],
-    "assumptions": ["unmarshal(marshal(v)) deep-equals v is decided by reflect.DeepEqual on the compiled generated types (oracle), not by a theorem: the theorems cover the one-occurrence-per-key and __typename parts"],
-    "level_text": "Theorems over EVERY typemap: FlattenedFields (breadth-first over embedded fragment structs) selects exactly one Go field per JSON name; the object a struct marshals to carries each key at most once; an abstract value marshals with __typename = the GraphQL name of its concrete type exactly once and first. decode(encode v) = v is proved for the wrapper algebra of leaf types (slices at any depth, optional pointer, scalar-like leaf; unbounded). A concrete two-type response is proved to round-trip exactly, and the statement is REFUTED for null lists of abstract values (re-marshaled as [], known finding). Tied to marshal.go.tmpl / marshal_helper.go.tmpl / types.go by marshaling every decoded value with the compiled generated code and comparing the JSON with Rt/JsonEncode.v in-kernel; deep equality of the re-decoded value and equality with the response up to the documented loss are oracle checks on the same runs.",
-    "level_note": "partial: the general round-trip is oracle-decided per run; three open findings (null list -> []; keys differing only by case; one key carried by a pointer and a non-pointer field).",
+    "assumptions": ["the round-trip theorems state equality after gnorm (order of a struct value's association list, unlisted field = zero value: neither is observable in Go) and carry explicit hypotheses that exclude exactly the recorded findings; on the real code unmarshal(marshal(v)) deep-equals v is decided by reflect.DeepEqual on the compiled generated types in every run"],
+    "level_text": "Theorems over EVERY typemap: FlattenedFields (breadth-first over embedded fragment structs) selects exactly one Go field per JSON name; the object a struct marshals to carries each key at most once; an abstract value marshals with __typename = the GraphQL name of its concrete type exactly once and first. decode(encode v) = v is proved for the wrapper algebra of leaf types (slices at any depth, optional pointer, scalar-like leaf; unbounded), for plain structs nested and recursive (the generated input types) -- also in the property's own form, v ranging over the results of decode --, and for response types with embedded fragment structs and lists of abstract values under hypotheses that exclude exactly the recorded findings, each of which is proved to be needed by a refutation with a value unmarshaling produces. A concrete two-type response is proved to round-trip exactly, and the statement is REFUTED for null lists of abstract values (re-marshaled as [], known finding). Tied to marshal.go.tmpl / marshal_helper.go.tmpl / types.go by marshaling every decoded value with the compiled generated code and comparing the JSON with Rt/JsonEncode.v in-kernel; deep equality of the re-decoded value and equality with the response up to the documented loss are oracle checks on the same runs.",
+    "level_note": "not covered by a round-trip theorem: special fields other than lists of abstract values (custom marshalers, *Iface); four open findings (null list -> []; keys differing only by case; one key carried by a pointer and a non-pointer field; omitempty list [] -> nil).",
     "theorem_status": {"C06_one_field_per_json_name": "proved", "C06_each_key_once": "proved", "C06_typename_present_once": "proved",
-                       "C06_witness_roundtrip": "proved (non-vacuity)", "C06_wrapper_roundtrip": "proved (round trip for slices^n around an optional pointer around a scalar-like type, unbounded)", "C06_wrapper_roundtrip_witness": "proved (non-vacuity)", "C06_null_list_roundtrip_refuted": "refuted part of the statement (witness by vm_compute; known finding)"},
+                       "C06_witness_roundtrip": "proved (non-vacuity)", "C06_wrapper_roundtrip": "proved (round trip for slices^n around an optional pointer around a scalar-like type, unbounded)", "C06_wrapper_roundtrip_witness": "proved (non-vacuity)", "C06_null_list_roundtrip_refuted": "refuted part of the statement (witness by vm_compute; known finding)",
+                       "C06_plain_struct_roundtrip": "proved (the generated input types and every struct of named non-special fields, nested and recursive: decode(encode v) = v up to gnorm for every value unmarshaling can produce)",
+                       "C06_plain_struct_roundtrip_enough_fuel": "proved (a sufficient fuel exists when no struct contains itself by value)",
+                       "C06_every_obtained_value_roundtrips": "proved (the property as worded, for plain types: v ranges over the results of decode itself)",
+                       "C06_response_roundtrip": "proved (embedded fragment structs with case-distinct keys, lists of abstract values dispatched by __typename; the recorded findings excluded by explicit hypotheses)",
+                       "C06_omitempty_empty_list_refuted": "refuted part of the statement (omitempty list field: [] is omitted and comes back nil; finding F-C06-4)",
+                       "C06_embedded_case_collision_refuted": "refuted part of the statement (F-C06-2 between a struct and its embedded fragment)",
+                       "C06_embedded_shared_key_refuted": "refuted part of the statement (F-C06-3)"},
 }
 
 PROPS["C04"] = {
